@@ -40,7 +40,16 @@ def configs(tier, seed):
             for ps in ("t", "tr", "r"):
                 for grid in (["unit", "uneven"] if tier == "quick" else dsm.GRIDS):
                     out.append(dict(h="realclass", op=kind + lt, key=f"realclass/{kind}/{lt}/prm={ps}/grid={grid}", kind=kind, lt=lt, ps=ps, grid=grid, n=3 if kind != "idsm" else 4, extra={"r": 2}))
+    # survival shares that are exactly 0 or 1 (FixedLifetime, concrete lifetimes per cohort on concrete grids whose interval
+    # lengths are powers of two, so that flodym's float reciprocals are exact): later cohorts out- or under-living earlier ones
+    for kind in KINDS:
+        for sched in FIXED_SCHEDULES:
+            for grid in ("unit", "step2"):
+                out.append(dict(h="fixed_concrete", op=kind + "fx", key=f"fixed_concrete/{kind}/{sched}/grid={grid}", kind=kind, sched=sched, grid=grid, n=6, extra={"r": 2}))
     return out
+
+
+FIXED_SCHEDULES = {"growing": [0.6, 2.6, 3.6, 3.6, 4.6, 4.6], "shrinking": [4.6, 3.6, 2.6, 0.6, 0.6, 0.6], "constant": [1.6] * 6, "zigzag": [2.6, 0.6, 3.6, 0.6, 1.6, 2.6]}
 
 
 def ctx_setup(cfg, c):
@@ -49,6 +58,8 @@ def ctx_setup(cfg, c):
 
 def run(cfg, w):
     n, kind, extra = cfg["n"], cfg["kind"], cfg["extra"]
+    if cfg["h"] == "fixed_concrete":
+        return _fixed_concrete(cfg, w)
     y, dt, b = dsm.make_grid(w, n, cfg["grid"])
     dims = dsm.make_dims(y, extra)
     shape = dims.shape
@@ -103,3 +114,47 @@ def run(cfg, w):
                 if t + 1 < n:
                     w.ob(f"cohort_stock_never_increases[{t},{c}]{list(lab)}",
                          w.implies(w.ge(I[(c,) + lab], 0), w.le(sbc[(t + 1, c) + lab], sbc[(t, c) + lab])), chain=chain)
+
+
+def _fixed_concrete(cfg, w, check=None):
+    import flodym.lifetime_models as lm
+    from flodym import FlodymArray
+    from fractions import Fraction
+
+    n, kind = cfg["n"], cfg["kind"]
+    step = 1 if cfg["grid"] == "unit" else 2
+    y = [2000 + step * i for i in range(n)]
+    dims = dsm.make_dims(y, cfg["extra"])
+    shape = dims.shape
+    means = [m * step for m in FIXED_SCHEDULES[cfg["sched"]]]
+    mean = FlodymArray(dims=dims.get_subset(("t",)), values=np.array(means, dtype=float))
+    lifetime = lm.FixedLifetime(dims=dims, mean=mean)
+    drive = dict(inflow=w.arr("in", shape)) if kind == "idsm" else dict(stock=w.arr("st", shape))
+    w.set_scale(*drive.values())
+    st = dsm.build_stock(kind, dims, lifetime=lifetime, **drive)
+    st.compute()
+    dt = [Fraction(step)] * n if w.sym else [float(step)] * n
+    # the declared survival: cohort c is present at the end of year t iff its age (from the middle of its interval) is below its lifetime
+    tab = np.zeros((n, n) + tuple(shape[1:]), dtype=object if w.sym else float)
+    for c in range(n):
+        for t in range(c, n):
+            tab[t, c, ...] = 1 if (t - c + 0.5) * step < means[c] else 0
+    if check is not None:
+        return check(w, st, tab, dt, dims)
+    S, I, O = st.stock.values, st.inflow.values, st.outflow.values
+    sbc, obc = st.get_stock_by_cohort(), st.get_outflow_by_cohort()
+    for lab in dsm.labels(shape[1:]):
+        for t in range(n):
+            ss, oo = 0, 0
+            for c in range(n):
+                ss = ss + sbc[(t, c) + lab]
+                oo = oo + obc[(t, c) + lab]
+            w.ob_eq(f"stock_is_sum_of_cohorts[{t}]{list(lab)}", S[(t,) + lab], ss)
+            w.ob_eq(f"outflow_is_sum_of_cohorts[{t}]{list(lab)}", O[(t,) + lab], oo)
+        for c in range(n):
+            entered = I[(c,) + lab] * dt[c]
+            left = 0
+            for t in range(c, n):
+                w.ob_eq(f"cohort_stock_is_inflow_times_survival[{t},{c}]{list(lab)}", sbc[(t, c) + lab], entered * tab[(t, c) + lab])
+                left = left + obc[(t, c) + lab] * dt[t]
+                w.ob_eq(f"cohort_conserved[{t},{c}]{list(lab)}", entered, sbc[(t, c) + lab] + left)
